@@ -414,7 +414,11 @@ class Engine(EngineBase):
             if sc.get("followup"):
                 world.clock_ms = max(world.clock_ms, info.get("clock_ms", 0))
                 world.new_incarnation(f"after-{fault['step']}-{fault['kind']}")
-                bad = self._followup(sc, world, pp, targets)
+                # near the publishing steps of the first write (and now and then elsewhere) the second write
+                # is crashed as well
+                muts = [t[0] for t in trace if t[1] in ("rename", "link", "unlink", "open-w")]
+                second = fault["step"] in muts[-4:] or (fault["step"] * 7 + len(trace)) % 5 == 0
+                bad = self._followup(sc, world, pp, targets, second_crash=second and sc["target"] == "cache")
                 res["stats"]["probes"]["followup_writes"] = res["stats"]["probes"].get("followup_writes", 0) + 1
                 if bad:
                     res["violations"].append(viol(
@@ -425,7 +429,7 @@ class Engine(EngineBase):
                     return
         res["outcome"] = f"{len(vs)} fault variants held"
 
-    def _followup(self, sc, world, pp, targets):
+    def _followup(self, sc, world, pp, targets, second_crash=False):
         """The process is back after the crash and writes the same file again, completely: the file must
         then hold exactly that content.  Returns (class suffix, detail) or None."""
         import signac
@@ -440,6 +444,32 @@ class Engine(EngineBase):
                     project.open_job(id=jid).remove()
                 except Exception as e:  # noqa: BLE001
                     return ("raised", f"untouched: removing job {jid[:8]} raised {type(e).__name__}: {e}")
+            if second_crash:
+                # the next write may die too: whatever the first crash left behind (a stray temporary
+                # file, perhaps sharing storage with the live file), the cache file must be what it was or
+                # the new content at every crash point of the second write
+                from simcore.world import FaultPlan, derive
+
+                old2 = self._read_target(sc, targets[0])
+                snap = snapshot(world.root, mtimes=True)
+                status, info = run_op(world, lambda: signac.Project(pp).update_cache())
+                if status == "ok" and info["outcome"] == "ok":
+                    new2 = self._read_target(sc, targets[0])
+                    vs = variants(info["trace"], crash=True, torn=True, errnos=False)
+                    rng = derive(sc.get("seed", 0), f"followup:{world.seq}")
+                    for v in (rng.sample(vs, 3) if len(vs) > 3 else vs):
+                        restore(world.root, snap)
+                        st2, _ = run_op(world, lambda: signac.Project(pp).update_cache(), FaultPlan([v]))
+                        if st2 != "crash":
+                            continue
+                        got = self._read_target(sc, targets[0])
+                        okold = got[0] == old2[0] and (got[0] != "ok" or same(got[1], old2[1]))
+                        oknew = got[0] == new2[0] and (got[0] != "ok" or same(got[1], new2[1]))
+                        if not (okold or oknew):
+                            return ("torn-by-second-crash",
+                                    f"{got[0]} after a second crash ({fault_label(v)} at step {v['step']} of the "
+                                    f"next update_cache()): neither what the first crash left nor the new content")
+                restore(world.root, snap)
             project = signac.Project(pp)
             try:
                 project.update_cache()
